@@ -604,7 +604,9 @@ fn check_input_inner(text: &str, kind: &str, session: u8, st: &mut Stats) -> Che
         st.label("stopped-by-step-budget");
         return Ok(());
     }
-    if elapsed > 20.0 && !defines_function {
+    // 60 s: an input that ends just below the step budget costs up to ~10 s of CPU time on an idle
+    // machine and was measured at 30 s when all cores (and their caches) were shared with other jobs
+    if elapsed > 60.0 && !defines_function {
         return Err(Failure::new("hang", format!("input {:?} ({kind}) took {elapsed:.1} s of CPU time", text)));
     }
     let stage = match &o.error {
@@ -634,7 +636,7 @@ fn check(c: &(G, u8), st: &mut Stats) -> CheckResult {
 fn run(cfg: &Cfg) -> Report {
     let mut rep = Report::new(
         cfg,
-        "proptest inputs of eight kinds: calls of every public prelude function (list read from the session, random-number functions excepted) with arguments drawn from typed pools of edge values (non-ASCII strings, 0/NaN/inf, huge, tiny and negative numbers, quantities, empty/nested/mixed lists, function names, extreme dates; one argument in eight ignores the declared type), 1-4 characters from an alphabet read from numbat's tokenizer and parser sources plus the whole Unicode super/subscript block appended to 14 stems, token soup over a 190-token vocabulary (numbers incl. extreme ones, units, all operator spellings, brackets, keywords, library functions, type syntax), 1-3 token mutations (delete, duplicate, swap, replace by an extreme value or a vocabulary token) of 1-5 consecutive lines of the example and module corpus read from /repo, 75 templates with extreme values substituted (huge exponents, factorial chains, overflowing integers, NaN/inf, format specifiers), corrupted generated programs, bounded nesting/operator runs, and random bytes; each in a fresh, a prelude, or a prelude-plus-definitions session; plus the complete enumeration of every one- and two-character continuation (same alphabet) after an operand. Oracle: interpretation returns (result or error); on error every diagnostic renders through codespan term::emit; no panic (debug assertions and overflow checks are on in this build); the session accepts a further input; an input without `fn` that stays within the harness's VM step budget uses less than 20 s of CPU time. Panics are keyed by file + message (not line). non-trivial = >= 4 tokens and the input reached the type checker or ran; distinct = input text",
+        "proptest inputs of eight kinds: calls of every public prelude function (list read from the session, random-number functions excepted) with arguments drawn from typed pools of edge values (non-ASCII strings, 0/NaN/inf, huge, tiny and negative numbers, quantities, empty/nested/mixed lists, function names, extreme dates; one argument in eight ignores the declared type), 1-4 characters from an alphabet read from numbat's tokenizer and parser sources plus the whole Unicode super/subscript block appended to 14 stems, token soup over a 190-token vocabulary (numbers incl. extreme ones, units, all operator spellings, brackets, keywords, library functions, type syntax), 1-3 token mutations (delete, duplicate, swap, replace by an extreme value or a vocabulary token) of 1-5 consecutive lines of the example and module corpus read from /repo, 75 templates with extreme values substituted (huge exponents, factorial chains, overflowing integers, NaN/inf, format specifiers), corrupted generated programs, bounded nesting/operator runs, and random bytes; each in a fresh, a prelude, or a prelude-plus-definitions session; plus the complete enumeration of every one- and two-character continuation (same alphabet) after an operand. Oracle: interpretation returns (result or error); on error every diagnostic renders through codespan term::emit; no panic (debug assertions and overflow checks are on in this build); the session accepts a further input; an input without `fn` that stays within the harness's VM step budget uses less than 60 s of CPU time. Panics are keyed by file + message (not line). non-trivial = >= 4 tokens and the input reached the type checker or ran; distinct = input text",
     );
     let cases = cfg.tier.pick(1500u32, 100000u32);
     rep.absorb(run_proptest(
